@@ -8,4 +8,17 @@ Q = lambda shards, checks, **kw: dict(shards=shards, checks=checks, timeout=kw.p
 
 CHECKS = {
     "C01": eng(Q(4, 1500), Q(16, 40000, timeout=3000)),
+    "C02": eng(Q(4, 1500), Q(16, 40000, timeout=3000)),
+    "C03": eng(Q(4, 1500), Q(16, 40000, timeout=3000)),
+    "C04": eng(Q(4, 1500), Q(16, 40000, timeout=3000)),
+    "C05": eng(Q(4, 1500), Q(16, 40000, timeout=3000)),
+    "C06": eng(Q(4, 1200), Q(16, 30000, timeout=3000)),
+    "C07": eng(Q(4, 1200), Q(16, 30000, timeout=3000)),
+    "C08": eng(Q(4, 1500), Q(16, 40000, timeout=3000)),
+    "C09": eng(Q(4, 1200), Q(16, 30000, timeout=3000)),
+    "C10": eng(Q(4, 1500), Q(16, 40000, timeout=3000)),
+    "C14": eng(Q(4, 1200), Q(16, 25000, timeout=3000)),
+    "C15": eng(Q(4, 1500), Q(16, 40000, timeout=3000)),
+    "C16": eng(Q(4, 1200), Q(16, 30000, timeout=3000)),
+    "C19": eng(Q(4, 1500), Q(16, 30000, timeout=3000)),
 }
